@@ -2,6 +2,7 @@
 package c04
 
 import (
+	"time"
 	"path"
 	"bufio"
 	"encoding/json"
@@ -28,7 +29,7 @@ import (
 var rec = vev.For("C04")
 
 func TestMain(m *testing.M) {
-	rec.SetRule("(1) complete truth table on the real file server: resource state {absent,file,collection,file behind a symbolic link} x If-Match {unset,*,current,stale,other,the empty tag,6 malformed forms} x If-None-Match likewise x {PUT,DELETE}; (2) rapid: tag announced by PUT/GET/HEAD/PROPFIND for random names/contents is one string and works when sent back; (3) rapid: ConditionalMatch helper laws over arbitrary strings; (4) rapid: CalDAV/CardDAV PUT hands arbitrary header values to the backend unaltered. non-trivial = (1) a conditional header is set and the resource exists, (2) always, (3)/(4) the tag/value contains a quote, backslash, non-ASCII or control byte; distinct by canonical case")
+	rec.SetRule("(1) complete truth table on the real file server: resource state {absent,file,collection,file behind a symbolic link,file dated at or before the epoch} x If-Match {unset,*,current,stale,other,the empty tag,6 malformed forms} x If-None-Match likewise x {PUT,DELETE}; (2) rapid: tag announced by PUT/GET/HEAD/PROPFIND for random names/contents is one string and works when sent back; (3) rapid: ConditionalMatch helper laws over arbitrary strings; (4) rapid: CalDAV/CardDAV PUT hands arbitrary header values to the backend unaltered. non-trivial = (1) a conditional header is set and the resource exists, (2) always, (3)/(4) the tag/value contains a quote, backslash, non-ASCII or control byte; distinct by canonical case")
 	rec.Assume("a stale tag is produced by rewriting the file with a different size (entity tags contain mtime+size, ext4 mtimes are jiffy-granular)", "header values in (4) are single-line field values without leading/trailing blanks, as net/http delivers them", "the current/stale tag of a collection cannot be obtained through the protocol and is not used")
 	vev.Main(m)
 }
@@ -47,7 +48,7 @@ func treeFor(state string) *vfs.Node {
 	t := vfs.NewDir()
 	t.Kids["keep"] = vfs.NewFile("keep")
 	switch state {
-	case "file", "linked-file":
+	case "file", "linked-file", "epoch-file", "ancient-file":
 		t.Kids["t"] = vfs.NewFile("v1")
 	case "collection":
 		d := vfs.NewDir()
@@ -85,6 +86,16 @@ func runRow(row Row) (vev.Outcome, error) {
 			return stale
 		}
 		return v
+	}
+	if row.State == "epoch-file" || row.State == "ancient-file" {
+		// a file last modified at the Unix epoch, or before it (after C04-s14): still a resource with a tag
+		when := time.Unix(0, 0)
+		if row.State == "ancient-file" {
+			when = time.Unix(-1000000000, 0)
+		}
+		if err := os.Chtimes(filepath.Join(root, "t"), when, when); err != nil {
+			return vev.Outcome{}, err
+		}
 	}
 	if row.State == "linked-file" {
 		// the resource is a symbolic link to a regular file kept outside the served directory (after C04-s12): its
@@ -141,11 +152,11 @@ func TestTruthTable(t *testing.T) {
 		t.Skip()
 	}
 	idx := 0
-	for _, state := range []string{"absent", "file", "collection", "linked-file"} {
+	for _, state := range []string{"absent", "file", "collection", "linked-file", "epoch-file", "ancient-file"} {
 		for _, m := range []string{"PUT", "DELETE"} {
 			for _, im := range condValues {
 				for _, inm := range condValues {
-					if state != "file" && state != "linked-file" && (im == "$CUR" || inm == "$CUR") {
+					if (state == "absent" || state == "collection") && (im == "$CUR" || inm == "$CUR") {
 						continue
 					}
 					idx++
@@ -165,7 +176,7 @@ func TestTruthTable(t *testing.T) {
 			}
 		}
 	}
-	rec.ExhaustiveSub("truth table: 4 resource states (absent, file, collection, file behind a symbolic link) x 11 If-Match values x 11 If-None-Match values x {PUT,DELETE} (current tag only for files)")
+	rec.ExhaustiveSub("truth table: 6 resource states (absent, file, collection, file behind a symbolic link, file last modified at the epoch, file last modified before it) x 11 If-Match values x 11 If-None-Match values x {PUT,DELETE} (current tag only for files)")
 }
 
 // ---------------------------------------------------------------------------
